@@ -230,6 +230,13 @@ def run_impl(case):
             out["p_or"] = float(ms.generate_penalty(cond, join=_por, **kw)(list(x)))
         except Exception as e:
             out["p_join_error"] = "%s: %s" % (type(e).__name__, str(e)[:120])
+        # the same conditions handed over in another order (equalities first; interleaved flat list): the penalty kind goes with the condition
+        try:
+            out["p_rev"] = float(ms.generate_penalty((eq, ineq), **kw)(list(x)))
+            flat = [f for pair in zip(list(ineq) + [None] * len(eq), list(eq) + [None] * len(ineq)) for f in reversed(pair) if f is not None]
+            out["p_flat"] = float(ms.generate_penalty(flat, **kw)(list(x))) if flat else 0.0
+        except Exception as e:
+            out["p_order_error"] = "%s: %s" % (type(e).__name__, str(e)[:120])
         if case["kind"] == "iso":
             solv = ms.generate_solvers(txt, variables=var, nvars=case["nvars"], locals=dict(locs) if use_locals else None)
             con = ms.generate_constraint(solv)
@@ -338,6 +345,13 @@ def oracle(case, obs):
         out.append(_fail("penalty_positive_elsewhere", "symbolic.generate_penalty", "negative-or-nan", p))
     elif abs(F(p) - exp) > F(1, 10 ** 9) * max(abs(exp), F(p)) and not (exp < F(1, 10 ** 300)):
         out.append(_fail("penalty_is_sum_of_terms", "symbolic.generate_penalty", "not-the-sum", dict(p=p, expected=float(exp), k=k)))
+    for key in ("p_rev", "p_flat"):
+        q = obs.get(key)
+        if q is not None and p == p and p >= 0 and p != float("inf") and not (exp < F(1, 10 ** 300)):
+            if not (q == q) or q == float("inf") or abs(F(q) - exp) > F(1, 10 ** 9) * max(abs(exp), abs(F(q))):
+                out.append(_fail("penalty_is_sum_of_terms", "symbolic.generate_penalty", "not-the-sum:conditions-reordered", dict(which=key, p=q, expected=float(exp), k=k)))
+    if "p_order_error" in obs:
+        out.append(_fail("penalty_is_sum_of_terms", "symbolic.generate_penalty", "reordered-conditions-rejected", obs["p_order_error"]))
     if "p_and" in obs and p == p and p >= 0 and p != float("inf"):
         pa, po = obs["p_and"], obs["p_or"]
         if not (pa == pa) or abs(F(pa) - F(p)) > F(1, 10 ** 9) * max(F(p), F(abs(pa))):
